@@ -71,6 +71,15 @@ func c14Service(c *core.Case) *core.Result {
 		if ad.DT.GetState() != model.StateOfDatatype_SUBSCRIBED {
 			return c.Inconclusive("creator not subscribed")
 		}
+		for try := 0; try < 4 && len(ad.W.CreatePushPullPack().Operations) > 0; try++ {
+			// whatever is still pending may go in further messages (nothing says one message takes all)
+			if _, sig, msg := w.sync(a); sig != "" {
+				return verdict(c, "svc:", sig, msg)
+			}
+			if !w.idle() {
+				return c.Inconclusive("idle")
+			}
+		}
 		if left := len(ad.W.CreatePushPullPack().Operations); left > 0 {
 			errs, _, _ := ad.Handler()
 			return c.Violation(typ+":svc:push-refused", "the server did not take %d of the %d operations the client pushed (errors %v)", left, len(sent), errs)
